@@ -10,6 +10,7 @@ import ClockBound.Model.DriverWorld
 import ClockBound.Model.Crash
 import ClockBound.Model.DriverThreads
 import ClockBound.Model.DriverHeader
+import ClockBound.Model.DriverSession
 namespace ClockBound.Driver
 open ClockBound
 
@@ -269,7 +270,10 @@ def driftLine (args0 impl : List String) : String :=
      | none => "bad-op | |")
   | some a =>
     if (match a with | some r => decide (r < 0 ∨ r ≥ 4294967296) | none => false) then
-      s!"rejected | C19:na | outOfRange"
+      -- not a 32-bit rate at all: C19 allows only a refusal (clap's usage error or an error from `main`), never a
+      -- publication (whatever a wider intermediate type would make of the value)
+      let published := match impl with | "ok" :: _ => true | _ => false
+      s!"rejected | {verdict "C19" true (!published)} | outOfRange"
     else
       let an := a.map Int.toNat
       let m := driftPpb an
@@ -285,7 +289,7 @@ def driftLine (args0 impl : List String) : String :=
         | none => ["omitted"]
         | some r => (if r * 1000 ≥ 4294967296 then ["unrepresentable"] else ["representable"]) ++
                     (if r + 2 ≥ 4294968 ∧ r ≤ 4294970 then ["boundary"] else [])
-      let tags := tags ++ (if mods.contains "@prior" then ["priorLive"] else []) ++ (if mods.contains "@env" then ["envSet"] else [])
+      let tags := tags ++ (if mods.contains "@prior" then ["priorLive"] else []) ++ (if mods.contains "@env" then ["envSet"] else []) ++ (if mods.contains "@phc" then ["phcOptions"] else [])
       s!"{mtxt} | {v} | {String.intercalate "," tags}"
 
 /-! ### seqlock scenarios -/
@@ -414,12 +418,12 @@ def slxLine (args impl : List String) : String :=
       | some c0 => decide (c0 ≥ 1000) && finalTok != thenTok
       | none => false
     let v := verdict "C18" true (returned && decide (genLoads ≤ SL.RETRIES + 1) && thenTok != "unbounded") ++ " " ++
-             verdict "C02" true secondOk ++ " " ++ verdict "C03" true finalOk ++ " " ++ verdict "C04" true finalOk
+             verdict "C02" true secondOk ++ " " ++ verdict "C03" true finalOk ++ " " ++ verdict "C04" true (secondOk && finalOk)
     let tags := (if genLoads > 1000 then ["exhaust"] else ["short"]) ++ (if mode == 1 then ["deadWriter"] else if mode == 3 then ["alternating"] else [])
     s!"{m} | {v} | {String.intercalate "," tags}"
   | _ => "bad-op | |"
 
-/-- crashpt <prior> <k> <k1> <k2> => ev … ; crashed … ; restarted … -/
+/-- crashpt <prior> <k> <k1> <k2> => ev … ; crashed open:… file:… attached:… fresh:… ; restarted … -/
 def crashLine (args0 impl : List String) : String :=
   -- `@old` / `@bin`: age and spelling of the file name; the protocol does not depend on either
   let mods := args0.takeWhile (fun t => t.startsWith "@")
@@ -430,6 +434,7 @@ def crashLine (args0 impl : List String) : String :=
     | "wiped" :: r => some (.wiped, r)
     | "valid" :: g :: k :: r => (do some (Crash.Prior.valid (← g.toNat?) (← k.toNat?), r))
     | "validv" :: v :: g :: k :: r => (do some (Crash.Prior.validv (← v.toNat?) (← g.toNat?) (← k.toNat?), r))
+    | "foreign" :: g :: k :: r => (do some (Crash.Prior.foreign (← g.toNat?) (← k.toNat?), r))
     | _ => none
   match parsed with
   | some (p, [k, k1, k2]) =>
@@ -444,7 +449,13 @@ def crashLine (args0 impl : List String) : String :=
       let len2 : Int := (field "len").toInt?.getD (-2)
       let att1 : String := ((atts[0]?).map (fun t => (t.drop 9).toString)).getD "?"
       let att2 : String := ((atts[1]?).map (fun t => (t.drop 9).toString)).getD "?"
-      let o : Crash.Observed := ⟨evName, field "open", len1, att1, field "inode_same" == "1", len2, field "fresh", att2, field "mode"⟩
+      -- two `fresh:` tokens: one in the `crashed` group (a client attaching between the crash and the
+      -- restart), one in the `restarted` group; a group without one yields `?`, which no clause accepts
+      let afterEv := (impl.dropWhile (· != ";")).drop 1
+      let freshOf (g : List String) : String := ((g.find? (fun t => t.startsWith "fresh:")).map (fun t => (t.drop 6).toString)).getD "?"
+      let fresh1 := freshOf (afterEv.takeWhile (· != ";"))
+      let fresh2 := freshOf ((afterEv.dropWhile (· != ";")).drop 1)
+      let o : Crash.Observed := ⟨evName, field "open", len1, att1, fresh1, field "inode_same" == "1", len2, fresh2, att2, field "mode"⟩
       -- C16's repair clause (a fresh client can open and reads the record; readable by other users) and
       -- C03's catch-up clause (an attached reader sees the restarted writer's publication) on the same run
       let c16 := o.fresh == Crash.cellsText (Crash.recCells k2) && o.mode == "644"
@@ -496,6 +507,7 @@ def processLine (line : String) : String :=
   | "client" :: args => clientLine args impl
   | "client2" :: args => client2Line args impl
   | "corder" :: args => corderLine args impl
+  | "session" :: args => DriverS.line args impl
   | "extract" :: args => extractLine args impl
   | "upd" :: args => updLine args impl
   | "gen" :: args => genLine args impl
@@ -509,6 +521,7 @@ def processLine (line : String) : String :=
   | "open" :: args => (DriverH.line "open" args impl).getD "bad-op | |"
   | "open0" :: args => (DriverH.line "open" args impl).getD "bad-op | |"
   | "openu" :: args => (DriverH.line "open" args impl).getD "bad-op | |"   -- as an unprivileged process, no lockable memory
+  | "openb" :: args => (DriverH.line "open" args impl).getD "bad-op | |"   -- the segment's name is not valid UTF-8
   | "seg" :: args => (DriverH.line "seg" args impl).getD "bad-op | |"
   | "snap" :: args => (DriverH.line "snap" args impl).getD "bad-op | |"
   | "sandwich" :: args => (DriverH.line "sandwich" args impl).getD "bad-op | |"
